@@ -1,8 +1,8 @@
 package rules
 
 import (
-	"strings"
 	"go/types"
+	"strings"
 
 	"kmcheck/internal/km"
 
